@@ -112,6 +112,9 @@ func (e *eventV2) Redact() {
 	if err != nil {
 		panic(fmt.Errorf("gomatrixserverlib: Redact failed %v", err))
 	}
+	// In this event format the event ID is the reference hash of the event: it is never read
+	// from the JSON (a member "event_id", under any spelling encoding/json accepts).
+	res.EventIDRaw = ""
 	res.redacted = true
 	res.eventJSON = eventJSON
 	res.roomVersion = e.roomVersion
@@ -158,6 +161,9 @@ func newEventFromUntrustedJSONV2(eventJSON []byte, roomVersion IRoomVersion) (PD
 		// the JSON text "null" unmarshals into a nil pointer
 		return nil, fmt.Errorf("gomatrixserverlib NewEventFromUntrustedJSON: event is not a JSON object")
 	}
+	// In this event format the event ID is the reference hash of the event: it is never read
+	// from the JSON (a member "event_id", under any spelling encoding/json accepts).
+	res.EventIDRaw = ""
 
 	if err := notOnlyTooManyBytes(checkID(res.eventFields.RoomID, "room", '!')); err != nil {
 		return nil, err
@@ -311,6 +317,9 @@ func newEventFromTrustedJSONV2(eventJSON []byte, redacted bool, roomVersion IRoo
 	if err := json.Unmarshal(eventJSON, &res); err != nil {
 		return nil, err
 	}
+	// In this event format the event ID is the reference hash of the event: it is never read
+	// from the JSON (a member "event_id", under any spelling encoding/json accepts).
+	res.EventIDRaw = ""
 
 	if err := notOnlyTooManyBytes(checkID(res.eventFields.RoomID, "room", '!')); err != nil {
 		return nil, err
